@@ -43,17 +43,36 @@ theorem C26_percent_rank {α : Type} [Inhabited α] (le eq : α → α → Bool)
   have := peerStart_le (eq := eq) (l := l) p
   omega
 
-/-- DENSE_RANK — partial.  Proved: the rows of a peer range are exactly the rows tied with row `p` (so the engine's
-    `dense += 1` fires exactly when the tie class changes).  NOT proved: that one plus the number of those changes
-    equals one plus the number of distinct key classes strictly before the row (`Spec.Win.distinctKeys`); sampled by K/O. -/
-theorem C26_dense_rank_partial {α : Type} [Inhabited α] (le eq : α → α → Bool) (l : List α) (h : SortedTies le eq l) (p : Nat) (hp : p < l.length) :
-    (∀ j, peerStart eq l p ≤ j → j < peerEnd eq l p → Tied le (l.getD j default) (l.getD p default)) ∧
-    (∀ j, j < peerStart eq l p → le (l.getD p default) (l.getD j default) = false) := by
-  refine ⟨?_, fun j hj => (lt_of_lt_peerStart h p hp j hj).2⟩
-  intro j hj1 hj2
-  by_cases hjp : j ≤ p
-  · exact peerStart_tied h p j hj1 hjp
-  · exact ((peerEnd_spec h p hp).2.2.1 j (by omega) hj2).symm
+/-- DENSE_RANK: one plus the number of peer boundaries of the partition up to row `p` (`dense += 1` whenever `peer_of[i]`
+    changes) is one plus the number of distinct tie classes among the rows that sort strictly before row `p` — the declarative
+    `Spec.Win.distinctKeys` count (`distinctBy` with the comparator's tie test is that function: `C26_distinctKeys_is_distinctBy`). -/
+theorem C26_dense_rank {α : Type} [Inhabited α] (le eq : α → α → Bool) (l : List α) (h : SortedTies le eq l) (p : Nat) (hp : p < l.length) :
+    boundariesIn eq l 0 p + 1 =
+      (distinctBy eq (l.filter (fun x => le x (l.getD p default) && !le (l.getD p default) x))).length + 1 := by
+  have hsp := peerStart_le (eq := eq) (l := l) p
+  rw [boundariesIn_eq_distinct h p hp]
+  congr 3
+  symm
+  apply filter_eq_take_of_prefix _ l (peerStart eq l p) (by omega)
+  · intro j hj hjs
+    have := lt_of_lt_peerStart h p hp j hjs
+    rw [getD_eq l j hj] at this
+    rw [this.1, this.2]; rfl
+  · intro j hj hjs
+    have hge : le (l.getD p default) (l.getD j default) = true := by
+      by_cases hjp : j ≤ p
+      · exact (peerStart_tied h p j hjs hjp).2
+      · exact h.le_of_le p j (by omega) hj
+    rw [getD_eq l j hj] at hge
+    rw [hge]; simp
+
+theorem C26_distinctKeys_is_distinctBy (fo : FloatOps) (flags : List (Bool × Bool)) (ks : List (List Val)) :
+    Win.distinctKeys fo flags ks = distinctBy (fun a b => cmpKeys fo flags a b == .eq) ks := by
+  induction ks with
+  | nil => rfl
+  | cons k ks ih =>
+    simp only [Win.distinctKeys, distinctBy, ih]
+    congr 1
 
 /-- the tie test the engine uses (equal key vectors) IS the tie of the lawful ORDER BY comparator, for rows of one partition -/
 theorem C26_peerEq_is_tie (flags : List (Bool × Bool)) (a b : SRow) (hpk : a.pk = b.pk)
